@@ -2,7 +2,7 @@
 import os, subprocess, json, shutil
 import build, inproc
 from common import pmap, VERIF, BUILD, log
-import c04
+from props import c04
 
 
 def miri(args, timeout=3600):
